@@ -44,13 +44,19 @@ def rule_amount_without_comma(tin, tout):
     m = re.fullmatch(r"(.*?\d),0*((?:\n.*)?)", b, re.S)
     return bool(m) and (m.group(1) + m.group(2)) == a.replace("\r", "")
 
+def rule_zero_decimal_comma_dropped(tin, tout):
+    """an amount of a zero-decimal currency is printed without the mandatory decimal comma"""
+    (t, a), (_, b) = tin, tout
+    a2 = a.replace("\r", "")
+    return a2 != b and re.sub(r"(\d),(?!\d)", r"\1", a2) == b
+
 def rule_dash_absorbed(tin, tout):
     (t, a), (_, b) = tin, tout
     return engine.canon_content(b) == engine.canon_content(a) + "\n-"
 
 TOKEN_RULES = {"trailing_ignored": rule_trailing_ignored, "narrative_truncated": rule_narrative_truncated,
                "field25_slash": rule_field25_slash, "amount_without_comma": rule_amount_without_comma,
-               "dash_absorbed": rule_dash_absorbed}
+               "dash_absorbed": rule_dash_absorbed, "zero_decimal_comma_dropped": rule_zero_decimal_comma_dropped}
 
 
 def classify_known(known, mt, in_toks, out_toks, text):
